@@ -313,6 +313,27 @@ func doOp(x *wctx, s *shared, o Op, p, q s2.Point) string {
 				return fmt.Sprintf("%x", math.Float64bits(float64(eq.Distance(s2.NewMaxDistanceToEdgeTarget(s2.Edge{V0: p, V1: q})))))
 			}
 			return fmt.Sprintf("%x", math.Float64bits(float64(eq.Distance(s2.NewMaxDistanceToPointTarget(p)))))
+		case "it":
+			// the public iterator entry points other than ShapeIndex.Iterator()
+			var it *s2.ShapeIndexIterator
+			switch o.M {
+			case 0:
+				it = s2.NewShapeIndexIterator(s.idx, s2.IteratorBegin)
+			case 1:
+				it = s2.NewShapeIndexIterator(s.idx)
+				it.Begin()
+			default:
+				it = s2.NewShapeIndexIterator(s.idx, s2.IteratorEnd)
+				for it.Prev() {
+				}
+			}
+			h := fnv.New64a()
+			n := 0
+			for ; !it.Done(); it.Next() {
+				n++
+				fmt.Fprintf(h, "%d:%v;", uint64(it.CellID()), it.IndexCell() != nil)
+			}
+			return fmt.Sprintf("%d cells #%016x", n, h.Sum64())
 		case "rg":
 			if x.region == nil {
 				x.region = s.idx.Region()
